@@ -298,6 +298,21 @@ def encoder_forwards(F, R):
     R.floor('C04.no-drop', 'Ok exits of the codecs\' encodev', k, 4)
 
 
+def control_pipeline_polled(F, R):
+    """Protocol messages go through a buffered, one-at-a-time control pipeline; a message that arrives while another is being
+    handled is parked inside it and is released only from the pipeline's own readiness check. The dispatcher's ready() is what
+    keeps polling it: it waits for the control pipeline as well as for the publish service, and reports the error of either."""
+    from disp import all_dispatchers
+    n = 0
+    for d in all_dispatchers(F):
+        b = d.ready
+        n += 1
+        ctl = [bi for bi, t in b.calls() if re.search(r'Pipeline::<S>::ready$|Pipeline<.*>::ready$|::ready$', callee_name(t) or '') and 'control' in (call_recv_path(b, t, 0) or ())]
+        R.ob('C04.control-serial', '%s|ready()|polls-the-control-pipeline' % d.name, bool(ctl),
+             'Dispatcher::ready no longer waits for the control pipeline: a SUBSCRIBE / PINGREQ / PUBREL that arrives while the previous protocol message is still being handled stays parked in the buffer for ever and is never answered', b.loc(0))
+    R.floor('C04.control-serial', 'dispatcher readiness functions', n, 4)
+
+
 def answered(F, R):
     """Requests that carry an answer (SUBSCRIBE, UNSUBSCRIBE, PUBLISH) end without one - the arm yields `None` for the
     response slot - only when the connection is already closing (the `is_closed()` edge) or the answer was written on the spot
@@ -371,4 +386,5 @@ def run(F, R):
     cs = queue_head(F, R)
     slot_per_call(F, R, cs)
     control_serial(F, R)
+    control_pipeline_polled(F, R)
     R.assume('wrapping index arithmetic (base/response_idx) for every completion permutation is not decided; queue[idx] is assumed in C16')
